@@ -45,6 +45,23 @@ def py_scan(s):
     return "".join(st)
 
 
+def py_depth0(s, ch):
+    """Mirror of `atDepth0 ch s []`: `ch` occurs where the bracket scan has an empty stack."""
+    st = []
+    for c in s:
+        if not st and c == ch:
+            return True
+        if c == "(":
+            st.insert(0, ")")
+        elif c == "[":
+            st.insert(0, "]")
+        elif c in ")]":
+            if not st or st[0] != c:
+                return False
+            st.pop(0)
+    return False
+
+
 # ------------------------------------------------------------------ valid base calls, structured
 
 def _names(rng, k):
@@ -267,10 +284,24 @@ def parser_case(rng, rule):
             if py_scan(cand) != "":
                 return cand
         return desc + " )"
+    if rule == "parse_rejects_unwrapped_concat":
+        # a `+` at delimiter depth 0: between two top-level dimensions of a structured call, or at a random depth-0 position
+        if rng.random() < 0.7:
+            call = _copy(base_call(rng, fam))
+            side = rng.choice(["ins", "outs"]) if call["outs"] else "ins"
+            i = rng.randrange(len(call[side]))
+            k = rng.randint(0, len(call[side][i]))
+            call[side][i].insert(k, rng.choice(["+", "+ " + call["fresh"][0], call["fresh"][0] + " +"]))
+            cand = render(call)
+        else:
+            slots = [k for k in range(len(desc) + 1) if py_scan(desc[:k]) == ""]
+            k = rng.choice(slots)
+            cand = desc[:k] + rng.choice(["+", " + ", "+ "]) + desc[k:]
+        return cand if py_depth0(cand, "+") else "a + b"
     raise core.MachineryError(f"no generator for rule {rule}")
 
 
-PARSER_RULES = ["parse_rejects_bad_char", "parse_rejects_unbalanced"]
+PARSER_RULES = ["parse_rejects_bad_char", "parse_rejects_unbalanced", "parse_rejects_unwrapped_concat"]
 UNBALANCED_KINDS = ("invalidToken", "closingNotOpened", "openingNotClosed")
 
 
@@ -347,6 +378,11 @@ def run(ctx, c03, n_per_rule):
                         ctx.tie_broken("correspondence:spec-predicate", f"alphabetChar on {t!r}: Lean flags {m['bad']}, harness {mine}")
                     hyp = bool(m["bad"])
                     concl = m["parse"].get("error") == "syntax" and m["parse"].get("kind") == "invalidToken"
+                elif rule == "parse_rejects_unwrapped_concat":
+                    if m["plus0"] != py_depth0(t, "+"):
+                        ctx.tie_broken("correspondence:spec-predicate", f"atDepth0 '+' on {t!r}: Lean {m['plus0']}, harness {py_depth0(t, '+')}")
+                    hyp = m["plus0"]
+                    concl = m["parse"].get("error") == "syntax"
                 else:
                     if m["scan"] != py_scan(t) or m["balanced"] != (py_scan(t) == ""):
                         ctx.tie_broken("correspondence:spec-predicate", f"delimRun on {t!r}: Lean {m['scan']!r}/{m['balanced']}, harness {py_scan(t)!r}")
